@@ -25,6 +25,7 @@ type rxCase struct {
 	Pat      string   `json:"pat"`
 	Alpha    []string `json:"alpha"`
 	Subjects []string `json:"subjects,omitempty"` // when given, Find results for them are returned (matcher validation)
+	Ctor     string   `json:"ctor,omitempty"`     // constructor at the call site: MustCompile (default) or MustCompilePOSIX
 	Wit      []string `json:"wit,omitempty"`      // a shortest match (one string per symbol); it and its one-symbol variations are subjects too
 }
 
@@ -74,7 +75,11 @@ func regexCmd(args []string) {
 		line := 6
 		name := filepath.Join(*work, "rx", fmt.Sprintf("f%04d.go", nfiles))
 		for j := i; j < i+*perFile && j < len(cases); j++ {
-			fmt.Fprintf(&sb, "\t_ = regexp.MustCompile(%s)\n", strconv.Quote(cases[j].Pat))
+			ctor := cases[j].Ctor
+			if ctor == "" {
+				ctor = "MustCompile"
+			}
+			fmt.Fprintf(&sb, "\t_ = regexp.%s(%s)\n", ctor, strconv.Quote(cases[j].Pat))
 			byLoc[loc{name, line}] = j
 			line++
 		}
@@ -191,7 +196,11 @@ func rxSubjects(alpha []string, maxlen int) []string {
 }
 
 func judge(c *rxCase, r *rxOut, maxlen int) {
-	a, err := regexp.Compile(c.Pat)
+	compile := regexp.Compile
+	if c.Ctor == "MustCompilePOSIX" {
+		compile = regexp.CompilePOSIX // the suggestion is judged with the constructor of its call site
+	}
+	a, err := compile(c.Pat)
 	if err != nil {
 		return
 	}
@@ -231,7 +240,7 @@ func judge(c *rxCase, r *rxOut, maxlen int) {
 		if sg == "" {
 			continue
 		}
-		b, err := regexp.Compile(sg)
+		b, err := compile(sg)
 		switch {
 		case err != nil:
 			r.Verdict, r.Witness = "nocompile", err.Error()
